@@ -250,7 +250,8 @@ CHECKS = {
          "implementation is then run on truncations of corpus and generated archives at sampled (thorough: every) offsets, "
          "structurally generated archives with extreme length fields (level-3 header length up to 2^32-1 and around the 1 MiB cap, "
          "level-3 extended sizes, level-1 chains of 3000 extended headers, chains promising absent data, 4 GiB member sizes, "
-         "decoders that never run dry with 4 GiB declared) and mutated archives, through all five stream kinds, under a "
+         "decoders that never run dry with 4 GiB declared, archives of a dozen members that each need a large-state decoder - plain and behind "
+         "the MacBinary pass-through) and mutated archives, through all five stream kinds, under a "
          "deterministic step budget; every call's result is validated against Reader.tla and the trace spec evaluates on every "
          "call: callback calls <= 2*len+64*ops+256, bytes requested <= 3*len+out+(1MiB+8K)*ops+64K, peak heap <= 8 MiB+2*len.",
     design_ref="DESIGN.md section 5, C13",
@@ -268,12 +269,16 @@ CHECKS = {
          "self-extractors, through callbacks (every request size and order must be the model's), seekable FILE and pipe; "
          "(2) Reader level: for corpus, generated and truncated archives, with and without clean or decoy prefixes, the calls made "
          "through path/FILE/pipe/callback/callback-without-skip streams must all yield the members of the reference run and "
-         "be accepted by Reader.tla.",
+         "be accepted by Reader.tla; (3) the tool: Cli!Main (src/main.c: argument shapes, the name '-' = standard input, open failure, "
+         "usage page) decides every whole invocation - list, test, print, dry-run and extract commands on archives named by path, "
+         "by '-' with the file itself on standard input and by '-' with a pipe, with and without stubs in front: standard output "
+         "must equal Cli!MainOutput byte for byte for the members of the seekable-file reading.",
     design_ref="DESIGN.md section 5, C16",
     note="Caller callbacks are assumed to fill the buffer unless at end of input. Reader-level ground truth is relative (reference run "
          "over a seekable file); the scan itself is validated absolutely against the spec on the raw bytes.",
     technique="TLA+ spec (InputStream) model-checked with TLC at the real constants; trace validation of lha_input_stream_* request "
-              "sequences and of Reader-level executions across stream kinds and prefixes"),
+              "sequences, of Reader-level executions across stream kinds and prefixes, and of whole tool invocations (Cli!Main) over path / "
+              "redirected / piped standard input"),
  "C15": dict(
     category="model_checking",
     text="Reader.tla models lha_reader_* over lha_basic_reader_* (one action per public call; directory stack, deferred "
@@ -285,15 +290,21 @@ CHECKS = {
          "multi-member archives (all header levels, stored and real compressed members of 10 methods, directories, safe and "
          "dangerous symlinks, bad CRC/length, unsupported methods) are driven with random disciplined call sequences over "
          "five stream kinds; each call's result, returned bytes and projected internal state (LHASA_VERIF accessors) must "
-         "equal the model's.",
+         "equal the model's. Two readers over two archives run interleaved call by call, nested (reader B advanced from inside "
+         "reader A's progress callback, i.e. in the middle of A's decoding loop; what A's extraction wrote must be A's member), on "
+         "two threads, and on two threads under ThreadSanitizer (a data race is an event no action of the model matches); each "
+         "reader's trace is validated on its own.",
     design_ref="DESIGN.md section 5, C15",
     note="Trusted: TLC/SANY/CommunityModules, clang+ASan, the generator's ground truth (archive layout and member contents). "
-         "Concurrency (two readers on two threads) is observed, not explored.",
-    technique="TLA+ spec (Reader) model-checked with TLC; trace validation of lha_reader_* executions with state projections"),
+         "Concurrency (two readers on two threads) is observed (per-reader traces, ThreadSanitizer as event source), not explored.",
+    technique="TLA+ spec (Reader) model-checked with TLC; trace validation of lha_reader_* executions with state projections, incl. "
+              "two readers interleaved / nested / on two threads"),
  "C20": dict(
     category="fault_enumeration",
     text="For each generated history (archive incl. nested directories and dangerous symlinks, policy, disciplined call "
-         "sequence cut at a prefix so that the archive is abandoned at arbitrary points, stream kind) the fault-free run's "
+         "sequence cut at a prefix so that the archive is abandoned at arbitrary points, stream kind) and for header-shape "
+         "archives (every sequence of up to two - thorough: three - extended header types, repeats included, in level 1-3 "
+         "headers, also with a path already stored when the path header arrives) the fault-free run's "
          "allocations are counted by link-time interposition, then the run is repeated once per k with the k-th allocation "
          "failing (all k). Every execution's trace (calls, results, state projections, Alloc/Dealloc/Fopen/Fclose events) is "
          "validated against Reader.tla: the failing call must return a failure value/end of archive, later calls must behave as "
